@@ -1757,6 +1757,17 @@ def _bi_sorted(interp, args, kwargs, node):
     raise Unsupported("sorted", node)
 
 
+def _bi_enumerate(interp, args, kwargs, node):
+    if len(args) != 1 or kwargs:
+        raise Unsupported("enumerate with a start value", node)
+    it = interp.as_iterable(args[0], node)
+    if isinstance(it, list):
+        r = PyList([(i, x) for i, x in enumerate(it)])
+        r.fresh = True
+        return r
+    return SymSeq(it.length, lambda k: (k, it.get(k)), name="enumerate(%s)" % it.name)
+
+
 def _bi_anyall(is_any):
     def fn(interp, args, kwargs, node):
         seq = args[0]
@@ -1798,6 +1809,7 @@ BUILTINS = {
     "type": _Builtin("type", _bi_type),
     "bytearray": _Builtin("bytearray", _bi_bytearray),
     "sorted": _Builtin("sorted", _bi_sorted),
+    "enumerate": _Builtin("enumerate", _bi_enumerate),
     "any": _Builtin("any", _bi_anyall(True)),
     "all": _Builtin("all", _bi_anyall(False)),
     "max": _Builtin("max", _bi_minmax(True)),
